@@ -13,7 +13,8 @@ import SlipVerif.Driver.Util
      wf <term>         -> ok t | ok nil
      order <node>*     -> ok <name>*             node = <name>:<inh>,<inh>…  (snapshotOrder)
      gosort <node>*    -> ok <t|nil> <name>*     Go insertion sort with the "b inherits a" comparator; topoOk
-     close <def>*      -> ok <node>*             def = <name>:<direct>,…  (closeHistory) -/
+     close <def>*      -> ok <node>*             def = <name>:<direct>,…  (closeHistory)
+     loads <node>*     -> ok t | ok nil <name>   can the flavors be defined in this order (loadFlavors) -/
 namespace SlipVerif.Driver.LoadForm
 open SlipVerif.LoadForm SlipVerif.Driver
 
@@ -116,6 +117,11 @@ def handle (entry : String) (args : List String) : String :=
     | some ns =>
       let r := goInsertionSort inheritsLess ns
       "ok " ++ (if topoOk r then "t" else "nil") ++ " " ++ " ".intercalate (r.map (·.name))
+    | none => "bad-request node"
+  | "loads" => match args.mapM parseNode with
+    | some ns => match loadFlavors ns [] with
+      | .ok _ => "ok t"
+      | .error n => "ok nil " ++ n
     | none => "bad-request node"
   | "close" => match args.mapM parseNode with
     | some ds => "ok " ++ " ".intercalate ((closeHistory (ds.map (fun d => (d.name, d.inherits))) []).map showNode)
